@@ -93,6 +93,49 @@ def flatten_test(ctx, g):
            "degree = the first exponent >= 1 at which the word returns to row 0 (pipeline evaluated for orders 1..6 in a table of 6 rows)" if not bad else bad)
 
 
+def crystallographic_guard(ctx, g):
+    """pseudo_toroidal_cover refuses (panics on) exactly the symbols that violate the crystallographic restriction: some branching number v(i, i + 1, d)
+    of an ADJACENT index pair, at an orbit representative, is not in {1, 2, 3, 4, 6}.  The test is evaluated for v = 1..8"""
+    ctx.clauses.append("crystallographic restriction: the cover search is refused exactly for v not in {1, 2, 3, 4, 6} at the representatives of all adjacent index pairs (T4)")
+    b = ctx.body("delaney3d::pseudo_toroidal_cover")
+    ds = ("param", 1, b.debug.get(1, ""))
+    bad = None
+    vs = [(bi, [strip(norm(b.origin(x), g)) for x in t["args"]]) for bi, t in b.calls("DSym::v") if strip(norm(b.origin(t["args"][0]), g)) == ds]
+    reps = [[strip(norm(b.origin(x), g)) for x in t["args"]] for bi, t in b.calls("DSet::orbit_reps_2d") if strip(norm(b.origin(t["args"][0]), g)) == ds]
+    if len(vs) != 1 or len(reps) != 1:
+        bad = "not one v(..) test over one orbit_reps_2d(..) loop on the input symbol"
+    else:
+        a = vs[0][1]
+        i_t = a[1]
+        ri = loop_range_of_payload(b, i_t, g)
+        if not (unov_deep(a[2]) == ("binop", "Add", i_t, ("int", 1)) and reps[0][1] == i_t and unov_deep(reps[0][2]) == ("binop", "Add", i_t, ("int", 1))):
+            bad = "the branching numbers tested are not v(i, i + 1, d) at the representatives of the (i, i + 1)-orbits"
+        elif not (ri and eval_int(ri[0]) == 0 and not ri[2] and is_call(strip(ri[1]), "::dim")):
+            bad = "not every adjacent index pair i in 0..dim() is tested"
+        else:
+            vterm = ("call", "std::option::Option::<T>::unwrap", (("call", "dsyms::DSym::v", tuple(a)),))
+            # the refusal is a panic, and panic regions are not walked by the path enumeration: decided on the complementary site, the block
+            # reached when every test of the assertion has passed (the last non-panicking successor of the tests)
+            loops = [set(bl) for hh, bl in natural_loops(b) if vs[0][0] in bl]
+            inner = min(loops, key=len) if loops else set()
+            pb_ = b.panic_blocks()
+            succ = b.succ()
+            tests = {bi for bi in inner if b.blocks[bi]["term"]["k"] == "switch" and any(t_ in pb_ for t_ in succ.get(bi, [])) and any(t_ not in pb_ for t_ in succ.get(bi, []))
+                     and vs[0][0] in b.bwd(bi)}
+            passed = {t_ for bi in tests for t_ in succ.get(bi, []) if t_ not in pb_ and t_ not in tests}
+            if not tests or not passed:
+                bad = "no refusal (panic) behind the test"
+            else:
+                table = {}
+                for v in range(1, 9):
+                    r = reachable_sites(b, g, passed, lambda y, v=v: v if (strip(y) == vterm or (y[0] == "local" and not (1 <= y[1] <= b.argc) and b.local_ty(y[1]) == "usize" and strip(norm(b.local_origin(y[1]), g)) == vterm)) else None)
+                    table[v] = not bool(r)
+                want = {v: v not in (1, 2, 3, 4, 6) for v in range(1, 9)}
+                if table != want:
+                    bad = "the search is refused for v in %s; the crystallographic restriction excludes exactly 5, 7, 8, .. (allowed: 1, 2, 3, 4, 6)" % [v for v, t_ in table.items() if t_]
+    ctx.ob("T4-crystallographic-guard", b.name, "v in {1, 2, 3, 4, 6}", "ok" if not bad else "violation", "refused exactly for v = 5, 7, 8 among 1..8; adjacent pairs at their representatives" if not bad else bad)
+
+
 def core_type_table(ctx, g):
     """core_type: the two groups of order 4 are told apart by is_fully_involutive - and ONLY groups of order 4: "v4" needs len == 4 and all
     generators acting as involutions, "z4" needs len == 4 and not; every other size is named by core_type_by_size(len).  (A fully
@@ -121,6 +164,7 @@ def core_type_table(ctx, g):
 
 def run(ctx):
     g = ctx.facts.getters()
+    crystallographic_guard(ctx, g)
     flatten_test(ctx, g)
     core_type_table(ctx, g)
     two_d(ctx, g)
